@@ -166,6 +166,7 @@ func (c14) Run(plan interface{}, schedSeed uint64, replay []simrt.Choice, lenien
 		v.Machinery = err.Error()
 		return v, nil
 	}
+	v.Probe("kind:" + p.Kind)
 	rt := time.Duration(p.ReadTimeoutS) * time.Second
 	cost := time.Duration(p.EOFCostMs) * time.Millisecond
 	drain := 20*rt + 20*cost + 30*time.Second
@@ -350,7 +351,6 @@ func (c14) Run(plan interface{}, schedSeed uint64, replay []simrt.Choice, lenien
 	case firstErr.Now > bound:
 		v.Violate("late-error", "error later than the read timeout", "%s: failure at t=%v, first error at t=%v, bound %v", where, got.FailedAt, firstErr.Now, bound)
 	}
-	v.Probe("kind:" + p.Kind)
 	if p.K > 0 && p.K < len(wire) {
 		v.Nontrivial = fmt.Sprintf("%v|%v|%d|%s", p.Entries, p.Cuts, p.K, p.Kind)
 	}
